@@ -9,6 +9,7 @@ from harness import c07_gen as G
 from harness import c07_dispatch as D
 from harness import c07_fw as F
 from harness import c07_lines as L
+from harness import c07_stmts as S
 
 META = {
     "id": "C07",
@@ -87,7 +88,17 @@ def header_cases(rng, progs_lines, thorough):
 
 
 # ---------------------------------------------------------------------------------------------
+def _tick(label, _t=[None]):
+    import os, sys, time
+    if os.environ.get("C07_TIMING"):
+        now = time.time()
+        if _t[0] is not None:
+            print(f"[c07 timing] {label}: {now - _t[0]:.1f}s", file=sys.stderr)
+        _t[0] = now
+
+
 def run(ctx: C.Ctx):
+    _tick("start")
     rng = ctx.rng
     thorough = ctx.tier == "thorough"
     dist = {"leaf_kinds": {}, "units": {}, "exceptions": {}, "dispatch_outcomes": {}, "formerly_excluded_now_generated": {}}
@@ -171,7 +182,10 @@ def run(ctx: C.Ctx):
             for k, v in G.formerly_excluded(lt, u).items():
                 dist["formerly_excluded_now_generated"][k] = dist["formerly_excluded_now_generated"].get(k, 0) + v
     perturbed = []
-    for (_, _, _, _, lines) in inguard:
+    # the lexical / SPEC correspondences (sections 3, 4) draw from the layouts of the first batches: the third-round programs add
+    # no new lexical shape (same headers, same layouts), only new statement texts
+    lex_inguard = [e for e in inguard if e[0] < rep_from] if not thorough else inguard
+    for (_, _, _, _, lines) in lex_inguard:
         if rng.random() < (0.5 if thorough else 0.35):
             perturbed.append(G.perturb(rng, lines, strength=rng.choice([0.05, 0.2, 0.4])))
     for tops in progs:
@@ -179,6 +193,7 @@ def run(ctx: C.Ctx):
             key = meta[0] + (":" + str(meta[1]) if meta[0] == "allowed" else "")
             dist["leaf_kinds"][key] = dist["leaf_kinds"].get(key, 0) + 1
 
+    _tick("0 fixed witnesses + generation")
     # ================================================================ 1. real transpiler on every layout (one subprocess)
     all_scripts = [l for (_, _, _, _, l) in inguard] + perturbed
     impl = C.run_impl("c07_impl.py", {"cases": [["trace", l] for l in all_scripts]}, timeout=3000)
@@ -279,6 +294,7 @@ def run(ctx: C.Ctx):
     dist["block_structure_items"] = struct_kinds
     dist["hollow_bodies"] = _count_hollow(progs)
 
+    _tick("1 transpile + oracles A-C")
     # ================================================================ 2. model vs code: call tree of _parse_simple_lines
     n_trace = 0
     if have_model:
@@ -309,6 +325,7 @@ def run(ctx: C.Ctx):
             if o10[1] != want:
                 ctx.disagree("parse_top of an in-guard layout is not the skeleton (round trip)", lines, o10[1], want)
 
+    _tick("2 call tree + round trip")
     # ================================================================ 2b. the emitter: model vs code, spec reader vs its Python twin
     n_emit = 0
     ir_dist = {}
@@ -393,11 +410,104 @@ def run(ctx: C.Ctx):
         evaluations += n_emit
     dist["emitter_ir_nodes"] = ir_dist
 
+    _tick("2b emitter")
+    # ================================================================ 2c. statement layer: promotion rewrite, _emit_block and its sets
+    n_stmt = 0
+    st_dist = {"rewrite_trees": 0, "rewrite_decl_of_promoted": 0, "rewrite_default_decl_before_compound": 0, "promodecl_cases": 0,
+               "emitstate_trees": 0, "emitstate_in_setup": 0, "emitstate_repeated_statement_lines": 0, "emitstate_declarations": 0}
+    # (i) the real _rewrite_nodes: model vs code, and the theorem's relation (same statements, same places) on the real output
+    rw_cases = []
+    for tr in S.boundary_pn():
+        rw_cases.append((["count", "level", "flag", "msg"], tr))
+        rw_cases.append((["a", "count"], tr))
+    for _ in range(700 if thorough else 160):
+        rw_cases.append((rng.sample(S.NAMES, rng.randint(0, 4)), S.gen_pn(rng, 0, rng.choice([1, 2, 3]))))
+    rw_impl = C.run_impl("c07_impl.py", {"cases": [["rewrite", p_, tr] for p_, tr in rw_cases]}, timeout=3000)
+    rw_model = ctx.model([[21, 0, p_, [], False, S.flat_pn(tr)] for p_, tr in rw_cases]) if have_model else [None] * len(rw_cases)
+    rw_reported = False
+    for (p_, tr), ri, mo in zip(rw_cases, rw_impl, rw_model):
+        n_stmt += 1
+        st_dist["rewrite_trees"] += 1
+        fin = S.flat_pn(tr)
+        hit = [n for n in S.decl_names(fin) if n in p_]
+        st_dist["rewrite_decl_of_promoted"] += len(hit)
+        if hit:
+            nontrivial.add(("rewrite", repr(p_), repr(tr)))
+        if ri["exc"]:
+            ctx.disagree("_rewrite_nodes raises on a hand-built IR tree", [p_, tr], "a node list", ri["exc"])
+            continue
+        fout = S.flat_pn(ri["nodes"])
+        if S.as_assign(fout) != S.as_assign(fin) and not rw_reported:
+            rw_reported = True
+            ctx.fail("_rewrite_nodes (variable promotion) does not hand back the statements it was given: a statement of the block body is "
+                     "missing, added or in another block after the rewrite", {"promoted": p_, "nodes": tr},
+                     {"statements (declarations read as assignments)": S.as_assign(fin)}, {"statements": S.as_assign(fout)}, key="rewrite-loses-statement")
+        if mo is not None:
+            mout = S.dec_pn(mo[1], C.wstr)
+            if mout != fout:
+                ctx.disagree("_rewrite_nodes vs Promote.rewrite", [p_, tr], mout, fout)
+    # (ii) the real _make_promotion_decls
+    pd_cases = []
+    for top in (False, True):
+        for names in ([], ["count"], ["count", "level", "flag", "msg", "lst", "unknown"]):
+            pd_cases.append((names, [["count", "int"], ["level", "float"], ["flag", "bool"], ["msg", "String"], ["lst", "__redu_list<int>"]], top))
+    pd_impl = C.run_impl("c07_impl.py", {"cases": [["promodecls", n_, t_, top] for n_, t_, top in pd_cases]})
+    pd_model = ctx.model([[21, 2, n_, t_, top, []] for n_, t_, top in pd_cases]) if have_model else [None] * len(pd_cases)
+    for (n_, t_, top), ri, mo in zip(pd_cases, pd_impl, pd_model):
+        n_stmt += 1
+        st_dist["promodecl_cases"] += 1
+        if ri["exc"]:
+            ctx.disagree("_make_promotion_decls raises", [n_, t_, top], "declarations", ri["exc"])
+        elif mo is not None and S.dec_pn(mo[1], C.wstr) != S.flat_pn(ri["nodes"]):
+            ctx.disagree("_make_promotion_decls vs Promote.make_decls", [n_, t_, top], S.dec_pn(mo[1], C.wstr), S.flat_pn(ri["nodes"]))
+    # (iii) the real _emit_block inside / outside setup(), with empty and pre-filled de-duplication sets, on trees in which the
+    # same statement node occurs several times next to device declarations
+    leaf2 = C.run_impl("c07_impl.py", {"cases": [["leaflines", sp] for sp in S.STMT_SPECS]})
+    leaf_lines2 = {repr(sp): (o["lines"] or []) for sp, o in zip(S.STMT_SPECS, leaf2)}
+    es_cases = []
+    for _ in range(500 if thorough else 120):
+        pool = rng.sample(S.STMT_SPECS, rng.randint(2, 5))
+        pm = rng.choice([[], [], [["led", "13"]], [["pin_mode", "pinMode(7, OUTPUT)"]], [["bz", "8", "OUTPUT"], ["mot", "4", "in1"]]])
+        us = rng.choice([[], [], [["us", "2", "OUTPUT"]]])
+        es_cases.append((rng.random() < 0.7, rng.choice(["", "  ", "    "]), pm, us, S.gen_sn(rng, 0, rng.choice([1, 2, 3]), pool)))
+    es_impl = C.run_impl("c07_impl.py", {"cases": [["emitstate", b_, ind, pm, us, tr] for b_, ind, pm, us, tr in es_cases]}, timeout=3000)
+    es_model = (ctx.model([[22, b_, ind, pm, us, S.enc_sn(tr, leaf_lines2)] for b_, ind, pm, us, tr in es_cases])
+                if have_model else [None] * len(es_cases))
+    es_reported = False
+    for (b_, ind, pm, us, tr), ri, mo in zip(es_cases, es_impl, es_model):
+        n_stmt += 1
+        st_dist["emitstate_trees"] += 1
+        st_dist["emitstate_in_setup"] += int(b_)
+        if ri["exc"]:
+            ctx.disagree("_emit_block raises on a hand-built IR tree", [b_, ind, pm, us, tr], "lines", ri["exc"])
+            continue
+        if mo is None:
+            continue
+        want_stmt = texts(mo[4])
+        rep = len(want_stmt) - len(set(want_stmt))
+        st_dist["emitstate_repeated_statement_lines"] += rep
+        st_dist["emitstate_declarations"] += repr(tr).count("Decl'") - repr(tr).count("'VarDecl'")
+        if rep:
+            nontrivial.add(("emitstate", b_, repr(pm), repr(tr)))
+        if not S.is_sub(want_stmt, ri["lines"]) and not es_reported:
+            es_reported = True
+            ctx.fail("_emit_block does not write the lines of every statement node (in order) - a statement is skipped depending on what was emitted before "
+                     "or on the de-duplication sets", {"in_setup": b_, "indent": ind, "emitted_pin_modes": pm, "ultrasonic_pin_modes": us, "nodes": tr},
+                     {"statement and stanza lines (each node emitted alone)": want_stmt}, {"lines written": ri["lines"]}, key="emit-skips-statement")
+        if texts(mo[1]) != ri["lines"]:
+            ctx.disagree("_emit_block with de-duplication sets vs EmitStmt.emit_sl (lines)", [b_, ind, pm, us, tr], texts(mo[1]), ri["lines"])
+        elif sorted([texts(k) for k in mo[2]]) != ri["pm"] or sorted([texts(k) for k in mo[3]]) != ri["us"]:
+            ctx.disagree("_emit_block with de-duplication sets vs EmitStmt.emit_sl (sets afterwards)", [b_, ind, pm, us, tr],
+                         [sorted([texts(k) for k in mo[2]]), sorted([texts(k) for k in mo[3]])], [ri["pm"], ri["us"]])
+    evaluations += n_stmt
+    dist["statement_layer"] = st_dist
+
+    _tick("2c statement layer")
     # ================================================================ 3. lexical functions called directly
     icases = indent_cases(rng, thorough)
     scases = strip_cases(rng, thorough)
     span_cases = []
-    span_src = [l for (_, _, _, _, l) in inguard[:: (2 if thorough else 5)]] + perturbed[:: (1 if thorough else 2)]
+    span_src = [l for (_, _, _, _, l) in lex_inguard[:: (2 if thorough else 5)]] + perturbed[:: (1 if thorough else 2)]
     for lines in span_src:
         idx = list(range(len(lines)))
         if len(idx) > 12:
@@ -435,6 +545,7 @@ def run(ctx: C.Ctx):
             if mv != io:
                 ctx.disagree(names[code], pc[1:], mv, io)
 
+    _tick("3 lexical")
     # ================================================================ 4. the SPEC (Lang/PyLayout.v) against CPython
     n_spec = 0
     if have_model:
@@ -449,7 +560,7 @@ def run(ctx: C.Ctx):
             if mv != pr:
                 ctx.disagree("SPEC py_strip_comment / py_has_comment vs CPython tokenize", t, mv, pr)
         # block structure: py_block vs CPython's ast on every script that compiles
-        block_src = [l for (_, _, _, _, l) in inguard[:: (1 if thorough else 3)]] + perturbed
+        block_src = [l for (_, _, _, _, l) in lex_inguard[:: (1 if thorough else 3)]] + perturbed
         pyb = C.run_impl("c07_impl.py", {"cases": [["pyblocks", l] for l in block_src]}, timeout=3000)
         c8, meta8 = [], []
         for lines, pb in zip(block_src, pyb):
@@ -474,6 +585,7 @@ def run(ctx: C.Ctx):
         dist["spec_blocks_inside_block_guard"] = in_block_guard
         evaluations += n_spec
 
+    _tick("4 spec")
     # ================================================================ 5. line-accounting rows, re-observed with the hook
     rows = D.all_rows()
     row_scripts = []
@@ -520,6 +632,7 @@ def run(ctx: C.Ctx):
             if oc == "Translated" and hooked and kind not in ("semicolon_join",):
                 ctx.disagree("hook _VERIF_IGNORED vs black-box observation (translated line reported as ignored)", script, "not reported", w["ignored"])
 
+    _tick("5 rows")
     # ================================================================ 5b. statement recognisers: RE_* patterns and the dispatch loop
     rx_names = C.run_impl("c07_impl.py", {"cases": [["rxnames"]]})[0]
     shapes = L.shape_cases(rng, thorough)
@@ -647,32 +760,41 @@ def run(ctx: C.Ctx):
     dist["spacing_cases"] = n_sp
     dist["spacing_cases_inside_guard"] = n_sp_guard
 
-    # ================================================================ 6. known findings: replay every listed witness
+    _tick("5b recognisers")
+    # ================================================================ 6. known findings: replay every listed witness (one batch)
     replayed = 0
+    fcases, fmeta = [], []
     for f in ctx.findings:
         if f.get("kind") == "fixed":
             continue                      # replayed in step 0 (a failing one is a violation, never a known finding)
         wit = f.get("witness", {})
-        still = False
+        at = len(fcases)
         if wit.get("mode") == "relayout":
-            r = C.run_impl("c07_impl.py", {"cases": [["trace", wit["base"]], ["trace", wit["variant"]]]})
-            still = (r[0]["cpp"] != r[1]["cpp"]) or (r[0]["exc"] != r[1]["exc"])
+            fcases += [["trace", wit["base"]], ["trace", wit["variant"]]]
         elif wit.get("mode") == "silent-drop":
-            cs = []
             for k in wit["kinds"]:
                 for cname in wit["contexts"]:
-                    cs += [["trace", D.build(k, cname, True).splitlines()], ["trace", D.build(k, cname, False).splitlines()]]
-            r = C.run_impl("c07_impl.py", {"cases": cs})
-            for j in range(0, len(r), 2):
-                if not r[j]["exc"] and not r[j + 1]["exc"] and r[j]["cpp"] == r[j + 1]["cpp"]:
-                    still = True
+                    fcases += [["trace", D.build(k, cname, True).splitlines()], ["trace", D.build(k, cname, False).splitlines()]]
         elif wit.get("mode") == "strip":
-            r = C.run_impl("c07_impl.py", {"cases": [["strip", wit["line"]], ["pycomment", wit["line"]]]})
+            fcases += [["strip", wit["line"]], ["pycomment", wit["line"]]]
+        fmeta.append((f, wit.get("mode"), at, len(fcases)))
+    fres = C.run_impl("c07_impl.py", {"cases": fcases}, timeout=3000) if fcases else []
+    for f, mode, a0, a1 in fmeta:
+        r = fres[a0:a1]
+        still = False
+        if mode == "relayout":
+            still = (r[0]["cpp"] != r[1]["cpp"]) or (r[0]["exc"] != r[1]["exc"])
+        elif mode == "silent-drop":
+            for j_ in range(0, len(r), 2):
+                if not r[j_]["exc"] and not r[j_ + 1]["exc"] and r[j_]["cpp"] == r[j_ + 1]["cpp"]:
+                    still = True
+        elif mode == "strip":
             still = r[1] is not None and r[0].rstrip() != r[1][0].rstrip()
         replayed += 1
         if still:
             ctx.known(f"{f['id']}: {f['what']}")
 
+    _tick("6 findings")
     # ================================================================ evidence
     for (pi, u, lt, fj, lines) in inguard[1:4]:
         samples.append({"unit": u, "script": lines})
